@@ -156,7 +156,8 @@ def build_array(rows, layout, dur_scale=1):
 
 def distinct_permutations(k, rows, mode):
     """Index permutations of range(k).  mode 'all': every permutation giving a distinct row
-    sequence; mode 'some': identity, reversal, rotation, stride shuffle (distinct ones)."""
+    sequence; mode 'some': identity, reversal, rotation, stride shuffle, pitch-descending (distinct ones);
+    mode 'two': identity and stride shuffle."""
     seen = set()
     out = []
     if mode == "all":
@@ -169,6 +170,14 @@ def distinct_permutations(k, rows, mode):
         while math.gcd(s, k) != 1:
             s += 1
         cand.append([(i * s + 3) % k for i in range(k)])
+        if mode == "two":
+            cand = [cand[0], cand[-1]]
+            for perm in cand:
+                key = tuple(tuple(rows[i]) for i in perm)
+                if key not in seen:
+                    seen.add(key)
+                    out.append(list(perm))
+            return out
         # sort by pitch descending then onset descending (adversarial for stable-sort logic)
         cand.append(sorted(ident, key=lambda i: (-rows[i][2], -rows[i][0], i)))
     for perm in cand:
